@@ -115,9 +115,11 @@ fn main() {
             let sk: usize = a(6).parse().unwrap();
             let dl: u64 = a(7).parse().unwrap_or(3600);
             let t = &ts[idx];
+            // MQV_C overrides the deviation bound (experiments)
+            let c = std::env::var("MQV_C").ok().and_then(|v| v.parse().ok()).unwrap_or(t.c);
             let st = explore::explore(
                 &t.scn,
-                t.c,
+                c,
                 (si, sk),
                 t.cap,
                 Instant::now() + Duration::from_secs(dl),
